@@ -84,14 +84,15 @@ def Sender.send (s : Sender) (id : UInt8) (m : Bytes) : Sender × Bool :=
     ({ s with chans := s.chans.map fun c => if c.id = id then { c with queue := c.queue ++ [m] } else c }, true)
 
 /-- one `sendPacketMsg` in which the ratio comparison selects channel index `i`; defined only when
-    channel `i` is pending after the `isSendPending` sweep. -/
+    channel `i` is pending after the `isSendPending` sweep.  (The chosen `*Channel` is updated in
+    place; with distinct ids that is the update of the channel with that id.) -/
 def Sender.stepAt (s : Sender) (i : Nat) : Option (Sender × Packet) :=
   let ps := pendAll s.chans
   match ps[i]? with
   | some (c, true) =>
     let (c', p) := c.next s.maxPayload
     let c'' := { c' with recentlySent := c'.recentlySent + (encFrame p).length }
-    some ({ s with chans := (ps.map (·.1)).set i c'' }, p)
+    some ({ s with chans := (ps.map (·.1)).map fun x => if x.id = c.id then c'' else x }, p)
   | _ => none
 
 /-- the selection of `sendPacketMsg`: least `recentlySent/priority` among pending channels,
@@ -302,6 +303,16 @@ structure SRun where
   accepted : List (UInt8 × Bytes) := []
 deriving DecidableEq, Repr, Inhabited
 
+/-- the packets written by one action. -/
+def SRun.emit (t : SRun) : Act → List Packet
+  | .step i =>
+    match t.snd.stepAt i with
+    | some (_, p) => [p]
+    | none => []
+  | .ping => [.ping]
+  | .pong => [.pong]
+  | _ => []
+
 def SRun.act (t : SRun) : Act → SRun
   | .send id m =>
     let (s, ok) := t.snd.send id m
@@ -326,5 +337,21 @@ def wireOf (ps : List Packet) : Bytes := ps.flatMap encFrame
 
 /-- nothing left to send. -/
 def Sender.exhausted (s : Sender) : Prop := ∀ c ∈ s.chans, c.queue = [] ∧ c.sending = []
+
+
+/-! ## guards used by the theorems -/
+
+/-- a message the receiver configured with `rd` can take: non-empty, on a channel it has, within
+    that channel's capacity. -/
+def MsgOK (rd : List RDesc) (id : UInt8) (m : Bytes) : Prop :=
+  m ≠ [] ∧ ∃ d ∈ rd, d.id = id ∧ m.length ≤ (mkRChan d).cap
+
+def ActOK (rd : List RDesc) : Act → Prop
+  | .send id m => MsgOK rd id m
+  | .trySend id m => MsgOK rd id m
+  | _ => True
+
+/-- the receiver after a transport that delivered `bs` in non-empty reads. -/
+def initRun (P : Nat) (sd : List SDesc) : SRun := { snd := mkSender P sd }
 
 end GnoVerif.C43
